@@ -119,7 +119,7 @@ func derivePrior(g *rng, files []nodeSpec) (treeSpec, map[string]string) {
 		if f.Type != "f" {
 			continue
 		}
-		k := []string{"absent", "absent", "identical", "identical-old-mtime", "unrelated", "edited", "emptied", "truncated", "extended", "symlink-in-the-way", "emptydir-in-the-way", "fifo-in-the-way", "tail-kept"}[g.intn(13)]
+		k := []string{"absent", "absent", "identical", "identical-old-mtime", "unrelated", "edited", "emptied", "truncated", "extended", "symlink-in-the-way", "emptydir-in-the-way", "fifo-in-the-way", "tail-kept", "same-size-just-before"}[g.intn(14)]
 		kinds[f.Path] = k
 		n := nodeSpec{Path: f.Path, Type: "f", Mode: 0o644, Mtime: f.Mtime - 1000}
 		switch k {
@@ -144,6 +144,12 @@ func derivePrior(g *rng, files []nodeSpec) (treeSpec, map[string]string) {
 			for i := 0; i < len(n.Data)/3 && i < 50; i++ {
 				n.Data[i] ^= 0x55
 			}
+		case "same-size-just-before": // same size, other content, mtime a fraction of a second before the source's second
+			n.Data = append([]byte{}, f.Data...)
+			if len(n.Data) > 0 {
+				n.Data[len(n.Data)/2] ^= 0x21
+			}
+			n.Mtime, n.Nsec = f.Mtime-1, []int64{500_000_000, 999_999_999, 1_000}[g.intn(3)]
 		case "symlink-in-the-way":
 			n = nodeSpec{Path: f.Path, Type: "l", Link: "nowhere"}
 		case "emptydir-in-the-way":
